@@ -621,6 +621,98 @@ def r05_5(rep: Report, ts: TemplateSet, strength: dict[str, set[str]]) -> None:
         raise AnalysisError(f'only {n} URL-bearing template expressions found')
 
 
+def r05_6(rep: Report) -> None:
+    """required numeric attributes rendered from optional fields: `<S d="{{seg.duration}}">` is
+    written for every element of the lists built by Representation.generateSegmentTimeline /
+    generateSegmentDurations, and SegmentTimelineElement.duration defaults to None.  Every
+    `<list>.append(x)` in those producers is therefore reached only with x.duration assigned since x
+    was created, or on a path whose condition implies `x.duration is not None` - otherwise the
+    manifest carries d="None"."""
+    from ..core import find_class as _fc, find_func as _ff, short as _short
+    from ..flow import Disjunctive, Flow
+    from ..pathcond import PathCond, entails as pc_entails, f_not, show as pc_show, sym_values
+    rid = 'R05.6'
+    rel = 'dashlive/mpeg/dash/representation.py'
+    tree = rep.repo.tree(rel)
+    elt = _fc(tree, 'SegmentTimelineElement')
+    if elt is None:
+        raise AnalysisError('SegmentTimelineElement vanished')
+    optional = {x.target.id for x in elt.body if isinstance(x, ast.AnnAssign) and isinstance(x.target, ast.Name)
+                and 'None' in ast.unparse(x.annotation)}
+    # which optional fields do the templates print without a guard?
+    unguarded: set[str] = set()
+    for t in ('templates/segment/timeline.xml', 'templates/segment/durations.xml'):
+        src = rep.repo.source(t)
+        for m in re.finditer(r'\{\{\s*seg\.(\w+)\s*\}\}', src):
+            f_ = m.group(1)
+            before = src[:m.start()]
+            last_if = before.rfind('{%- if seg.' + f_)
+            last_if = max(last_if, before.rfind('{% if seg.' + f_))
+            last_end = max(before.rfind('endif'), 0)
+            if f_ in optional and not (last_if > last_end):
+                unguarded.add(f_)
+    if 'duration' not in unguarded:
+        raise AnalysisError('S@d is no longer rendered from seg.duration without a guard (template changed)')
+    cls = _fc(tree, 'Representation')
+    n_appends = 0
+    for name in ('generateSegmentTimeline', 'generateSegmentDurations'):
+        fn = _ff(cls, name)
+        if fn is None:
+            raise AnalysisError(f'Representation.{name} vanished')
+        construct = f'{rel}::Representation.{name}'
+
+        sym_upd, _res = sym_values()
+
+        def upd(st, facts):
+            facts = set(sym_upd(st, frozenset(facts)))
+            tgts = st.targets if isinstance(st, ast.Assign) else (
+                [st.target] if isinstance(st, (ast.AnnAssign, ast.AugAssign)) else [])
+            for t in tgts:
+                if isinstance(t, ast.Name):
+                    facts.discard(f'dur:{t.id}')
+                    v = getattr(st, 'value', None)
+                    if isinstance(v, ast.Call) and any(k.arg == 'duration' and not (
+                            isinstance(k.value, ast.Constant) and k.value.value is None) for k in v.keywords):
+                        facts.add(f'dur:{t.id}')
+                elif isinstance(t, ast.Attribute) and t.attr == 'duration' and isinstance(t.value, ast.Name):
+                    v = getattr(st, 'value', None)
+                    if isinstance(v, ast.Constant) and v.value is None:
+                        facts.discard(f'dur:{t.value.id}')
+                    else:
+                        facts.add(f'dur:{t.value.id}')
+            return frozenset(facts)
+        bad: list = []
+        seen = [0]
+
+        def on_stmt(st, states):
+            if isinstance(st, (ast.If, ast.While, ast.For, ast.With, ast.Try)):
+                return
+            for c in ast.walk(st):
+                if isinstance(c, ast.Call) and isinstance(c.func, ast.Attribute) and c.func.attr == 'append' \
+                        and c.args and isinstance(c.args[0], ast.Name):
+                    x = c.args[0].id
+                    seen[0] += 1
+                    for state in states:
+                        if f'dur:{x}' in state[2]:
+                            continue
+                        if pc_entails(state[0], f_not(('atom', f'{x}.duration is None'))) is True:
+                            continue
+                        bad.append((c, x, pc_show(state[0])))
+        Flow(Disjunctive(PathCond(upd=upd, decide=sym_upd.decide), cap=256), on_stmt=on_stmt).run(
+            fn, [PathCond.initial()])
+        n_appends += seen[0]
+        if not seen[0]:
+            raise AnalysisError(f'{name}: no S entry is appended')
+        if not bad:
+            rep.ok(rid, construct, 'listed S entries have a duration', f'{seen[0]} append site(s)')
+        else:
+            c, x, pc = bad[0]
+            rep.fail(rid, construct, 'listed S entries have a duration',
+                     f'`{_short(c, 50)}` lists `{x}` on a path ({pc[:90] or "entry"}) where {x}.duration was neither '
+                     'assigned nor tested: when the loop body never runs (an empty time-shift window) the manifest '
+                     'contains <S d="None"/>, which is not an unsigned integer', c)
+
+
 def analyse(rep: Report) -> None:
     rep.explanation = (
         'Every manifest-side template (9 .mpd, the patch template and the 17 files they include) '
@@ -639,6 +731,7 @@ def analyse(rep: Report) -> None:
     rep.rule('R05.3', 'attributes required for MPD@type are present on every supported mode branch', floor=50)
     rep.rule('R05.4', 'URL templates use only DASH identifiers', floor=3)
     rep.rule('R05.5', 'URL/query text is escaped exactly once on its way into XML', floor=20)
+    rep.rule('R05.6', 'S entries are listed only with a duration (S@d is rendered without a guard)', floor=2)
     global _INDEX
     from ..index import Index
     _INDEX = Index(rep.repo, 'dashlive/mpeg/dash')
@@ -663,6 +756,7 @@ def analyse(rep: Report) -> None:
         r05_2_3(rep, ts, r)
     r05_4(rep, ts)
     r05_5(rep, ts, strength)
+    r05_6(rep)
     rep.assumptions = [
         'Flask autoescapes templates named .html .htm .xml .xhtml .svg and nothing else',
         'field table: which expressions are numeric / fixed vocabulary / file-derived / free text '
